@@ -78,7 +78,7 @@ func (f FnGen) record(i int, keyKind int) jv.Val {
 
 // Subject strings for substring-style functions.
 func (f FnGen) subject() string {
-	return Pick(f.T, "subject", []string{"subject string", "aabaaabaaaab", "a,b,,c", "éaébéa", "日本日本語", "a😀b😀c", "abcabc", "", "a", " x y ", "aaa", "ab", "x,y,z", "AbC", "é", "--a--"})
+	return Pick(f.T, "subject", []string{"subject string", "aabaaabaaaab", "a,b,,c", "éaébéa", "日本日本語", "a😀b😀c", "🇩🇪🇫🇷x🇩", "e\u0301e\u0301", "abcabc", "", "a", " x y ", "aaa", "ab", "x,y,z", "AbC", "é", "--a--"})
 }
 
 func (f FnGen) substringOf(s string) string {
